@@ -186,8 +186,8 @@ def finish(rep, modinfo, t0, seed=0):
         print("  note: " + n)
     for l in out:
         print(l)
+    if violations:
+        return 1            # a reported violation stands on its own rule instance, also when another rule lost its anchor
     if rep.broken:
         return 2
-    if violations:
-        return 1
     return 0
